@@ -11,6 +11,7 @@
 import Gozod.Model.Store
 import Gozod.Model.Graph
 import Gozod.Model.Owned
+import Gozod.Model.Clone
 namespace Gozod.Drv.C15
 open Gozod.Store
 
@@ -270,6 +271,54 @@ def specOwn (steps : List String) (model : String) : String :=
   let reps := ps.length - distinct.length
   ",".intercalate (List.replicate reps "same") ++ "|fresh|schema-same|" ++ (model.splitOn "|").getLast!
 
+/-! ### class `deep`: defaults deeper than the clone's limit, self-referential defaults (`Gozod.Model.Clone`)
+
+    c15 deep <default|prefault> <steps> | V      steps: P = Parse(nil), M<j>@<k> = mutate the j-th result k levels down its spine
+        → "<same|CHANGED per later P>|<fresh|ALIASED>"
+-/
+
+/-- which clone the code under test has: `false` = /repo HEAD (`deepCloneValue` shares below `maxCloneDepth`),
+    `true` = after pending/C15-clone-deep-default (memoised clone) -/
+def deepCloneFixed : Bool := false
+
+def deepLook : Nat := 90
+
+def cloneOf (σ : GStore) (d : GVal) : GStore × GVal :=
+  if deepCloneFixed then cloneIso deepLook σ d else copy true legacyCloneLevels σ d
+
+structure DSt where
+  σ : GStore
+  results : List GVal
+  verd : List String
+  fresh : Bool
+  first : Option (List Nat)
+
+def deepRun (steps : List String) (ts : List String) : String :=
+  match build ts with
+  | none => "bad-graph"
+  | some (σ0, d) =>
+    let owned := reach deepLook σ0.heap d
+    let held := ser deepLook σ0.heap d
+    let st : DSt := steps.foldl (fun st s =>
+      if s == "P" then
+        let r := cloneOf st.σ d
+        let lk := ser deepLook r.1.heap r.2
+        let cells := reach deepLook r.1.heap r.2
+        let fr := disjoint cells owned && st.results.all (fun o => disjoint cells (reach deepLook r.1.heap o))
+        match st.first with
+        | none => { st with σ := r.1, results := st.results ++ [r.2], fresh := st.fresh && fr, first := some lk }
+        | some f => { st with σ := r.1, results := st.results ++ [r.2], fresh := st.fresh && fr,
+                              verd := st.verd ++ [if lk == f then "same" else "CHANGED"] }
+      else
+        match ((s.drop 1).copy).splitOn "@" with
+        | [js, ks] =>
+          match st.results[js.toNat!]? with
+          | some v => { st with σ := mutateCell st.σ (spineAt st.σ.heap ks.toNat! v) }
+          | none => st
+        | _ => st) { σ := σ0, results := [], verd := [], fresh := true, first := none }
+    let ok := st.fresh && ser deepLook st.σ.heap d == held
+    s!"{",".intercalate st.verd}|{if ok then "fresh" else "ALIASED"}"
+
 end graphs
 
 /-- chain of `d` nested nodes; returns the store and the root value -/
@@ -329,6 +378,9 @@ def handleWith (cfg : Cfg) : List String → String
     let model := ownHandle m.toNat! rest
     let steps := rest.takeWhile (· != "|")
     s!"{model}\t{specOwn steps model}"
+  | "deep" :: _kind :: rest =>
+    let (steps, g) := splitBar rest
+    s!"{deepRun steps g}\t{",".intercalate (((steps.filter (· == "P")).drop 1).map (fun _ => "same"))}|fresh"
   | ["dflt", _kind, d] =>
     match d.toNat? with
     | some d => s!"{dfltRun cfg d}\tsame,same,same"
